@@ -50,6 +50,10 @@ func c08NewProxy() (*Proxy, []*c08Backend) {
 	route.AddRouteItem("udp", "static.test", "127.0.0.78:5070")
 	route.AddRouteItem("tcp", "*.tcp.test", "127.0.0.78:5071")
 	route.AddRouteItem("tls", "tls.test", "127.0.0.78")
+	// (destinations with several wildcards: matching a host against them is part of
+	// what every request without Route costs)
+	route.AddRouteItem("udp", "*.*.*.w3.test", "127.0.0.78:5070")
+	route.AddRouteItem("udp", "a*b*c*.w4.test", "127.0.0.78:5070")
 	res := NewPreConfigHostResolver()
 	res.AddHostIP("alias.test", "127.0.0.77")
 	res.AddHostIP("hop.test", "127.0.0.78")
@@ -373,7 +377,23 @@ func gHostileMsg(rt *rapid.T, lab bool) (*AMsg, []string) {
 		applied = append(applied, what+" (added)")
 	}
 	for k := 0; k < n; k++ {
-		switch rapid.IntRange(0, 12).Draw(rt, "which") {
+		switch rapid.IntRange(0, 13).Draw(rt, "which") {
+		case 13: // a To host as long as a datagram allows, made of what the route patterns are made of
+			unit := rapid.SampledFrom([]string{".", "a.", "ab", "abc", "a", ".."}).Draw(rt, "unit")
+			host := strings.Repeat(unit, rapid.SampledFrom([]int{20000, 40000, 60000}).Draw(rt, "host bytes")/len(unit)) + rapid.SampledFrom([]string{"", ".w3.test", ".w4.tes", "x.w3.test."}).Draw(rt, "tail")
+			for i := range m.Hdrs {
+				if m.Hdrs[i].Kind == hRoute {
+					m.Hdrs[i].Raw = "" // (no Route: the To host is looked up in the route table)
+				}
+			}
+			var hs []AHdr
+			for _, h := range m.Hdrs {
+				if h.Kind != hRoute {
+					hs = append(hs, h)
+				}
+			}
+			m.Hdrs = hs
+			setRaw(hTo, "<sip:u@"+host+">", fmt.Sprintf("To host of %d bytes (%q...)", len(host), unit))
 		case 0:
 			m.CLOverride = rapid.SampledFrom(c08CL).Draw(rt, "cl")
 			if m.CLOverride == "" {
